@@ -73,3 +73,21 @@ UNITS.append(dict(name='C12.cache.invalidate', props=['C12'], kind='P', route='d
                   timeout=600, expect_s=10, must_have=['Check invariant after step for loop _dbus_header_cache_invalidate_all', 'Check ensures clause of contract'],
                   functions=[dict(name='_dbus_header_cache_invalidate_all', file=HDR, status='enforced', contract='every cache entry UNKNOWN afterwards (ghost index); writes only the fields array; terminates')],
                   assumptions=[]))
+
+# ---- the rebuilt position cache against the reference decoding (B, real values reader) -------------------------
+from .c01h import skel, skel_str   # noqa: E402  (same skeletons as C01.hdr.exact.*)
+REC = 'dbus/dbus-marshal-recursive.c'
+for _i, (_nm, _mk) in enumerate([
+        ('uu', lambda le: (32, skel(le, 32, 16, [(16, 'u'), (24, 'u')]), 'two fields (codes symbolic) with variant signature "u"')),
+        ('s3u', lambda le: skel_str(le, 's', 3, True) + ('two fields (codes symbolic): "s" with 3 content bytes, then "u"',)),
+        ('o3', lambda le: skel_str(le, 'o', 3) + ('one field (code symbolic), signature "o", 3 content bytes',))]):
+    for _le, _tier in ((_i % 2, 'quick'), (1 - _i % 2, 'thorough')):
+        _n, _a, _note = _mk(_le)
+        UNITS.append(dict(name='C12.cache.revalidate.%s.%s%d' % (_nm, 'le' if _le else 'be', _n), props=['C12', 'C01'], kind='B', route='plain',
+                          tus=[dict(file=HDR, include_as='VERIF_TU'), dict(file=STR), dict(file=BASIC), dict(file=REC), dict(file=SIG)],
+                          harness='harness/c12_revalidate.c', extra_sources=[ASSERT], defines=['VERIF_N=%d' % _n, 'VERIF_HDR_ASSUME=%s' % _a],
+                          unwind=_n + 3, timeout=1800, tier=_tier, expect_s=60,
+                          bounds={'header_bytes': _n, 'skeleton': ('little' if _le else 'big') + ' endian, %d bytes, ' % _n + _note, 'precondition': 'header image valid per the reference decoder'},
+                          functions=[dict(name='_dbus_header_cache_revalidate', file=HDR, status='bounded'),
+                                     dict(name='_dbus_type_reader_init/_recurse/_get_current_type/_read_basic/_next (values reader)', file=REC, status='bounded')],
+                          assumptions=['the header image is a valid header (what _dbus_header_load accepts: C01.hdr.exact.*; what edits are supposed to keep: not decided, realignment core)']))
